@@ -160,7 +160,16 @@ class NetlistMixin(object):
         if possible."""
 
         enodes = EquipotentialNodes()
-        enodes.add(self.nodes.keys())
+        # List the nodes in the order that they are met in the netlist
+        # (the order of self.nodes depends on the components that have
+        # been removed or overridden).
+        node_names = {}
+        for elt in self.elements.values():
+            for node in elt.nodes:
+                node_names[node.name] = None
+        for node_name in self.nodes.keys():
+            node_names[node_name] = None
+        enodes.add(node_names.keys())
 
         # Then augment with nodes connected by wires.
         for m, elt in enumerate(self.elements.values()):
